@@ -26,6 +26,10 @@ pub enum Mutation {
     ToggleTrailingSlash,
     /// respell an escaped space in the *path* as '+' (in a path '+' is a plus sign, not a space)
     PathSpaceToPlus,
+    /// a path separator respelled as %2F, or an escaped slash respelled as a separator (the n-th candidate)
+    PathSlashEscape(u16),
+    /// the method tunnelled: the request becomes a POST (or GET) that names the signed method in an override header
+    MethodTunnel(u8),
     AppendParam(u16),
     DuplicateParam(u16),
     RemoveParam(u16),
@@ -82,6 +86,8 @@ pub fn mutation() -> BoxedStrategy<Mutation> {
         2 => any::<u16>().prop_map(UriDelete),
         1 => Just(ToggleTrailingSlash),
         1 => Just(PathSpaceToPlus),
+        2 => any::<u16>().prop_map(PathSlashEscape),
+        1 => any::<u8>().prop_map(MethodTunnel),
         1 => any::<u16>().prop_map(AppendParam),
         1 => any::<u16>().prop_map(DuplicateParam),
         1 => any::<u16>().prop_map(RemoveParam),
@@ -235,6 +241,35 @@ pub fn apply(m: &Mutation, plan: &Plan, built: &Built) -> Option<Case> {
             };
             let np = if p.ends_with('/') && p.len() > 1 { p[..p.len() - 1].to_string() } else { format!("{}/", p) };
             case.req.uri = format!("{}{}", np, q);
+        }
+        PathSlashEscape(x) => {
+            let path = case.req.path().to_string();
+            let pq = case.req.path_and_query().to_string();
+            let prefix = case.req.uri[..case.req.uri.len() - pq.len()].to_string();
+            let rest = pq[path.len()..].to_string();
+            // candidates: separators other than the leading one, and escaped slashes
+            let mut cand: Vec<(usize, usize, &str)> = path.char_indices().skip(1).filter(|(_, c)| *c == '/').map(|(i, _)| (i, 1, "%2F")).collect();
+            let lower = path.to_ascii_lowercase();
+            let mut from = 0;
+            while let Some(i) = lower[from..].find("%2f") {
+                cand.push((from + i, 3, "/"));
+                from += i + 3;
+            }
+            if cand.is_empty() {
+                return Option::None;
+            }
+            let (i, len, rep) = cand[pick_idx(*x, cand.len())];
+            let rep = if rep == "%2F" && x % 2 == 1 { "%2f" } else { rep };
+            case.req.uri = format!("{}{}{}{}{}", prefix, &path[..i], rep, &path[i + len..], rest);
+        }
+        MethodTunnel(k) => {
+            let carrier = ["POST", "GET", "post", "PUT"][(*k % 4) as usize];
+            if case.req.method == carrier {
+                return Option::None;
+            }
+            let name = ["X-HTTP-Method-Override", "X-Method-Override", "X-HTTP-Method", "x-http-method-override"][(*k / 4 % 4) as usize];
+            case.req.headers.push((name.to_string(), B::from(case.req.method.as_str())));
+            case.req.method = carrier.to_string();
         }
         PathSpaceToPlus => {
             let (p, q) = match case.req.uri.find('?') {
@@ -510,7 +545,8 @@ pub fn label(m: &Mutation) -> &'static str {
     use Mutation::*;
     match m {
         Method(_) => "method",
-        UriChar(..) | UriInsert(..) | UriDelete(_) | ToggleTrailingSlash | PathSpaceToPlus => "uri",
+        UriChar(..) | UriInsert(..) | UriDelete(_) | ToggleTrailingSlash | PathSpaceToPlus | PathSlashEscape(_) => "uri",
+        MethodTunnel(_) => "method",
         AppendParam(_) | DuplicateParam(_) | RemoveParam(_) => "param",
         HeaderByte(..) | HeaderCase(..) | HeaderAddValue(_) | HeaderRemove(_) | HeaderSwapValues(_) | HostPort(_) | HeaderSuffix(..) => "header",
         BodyFlip(_) | BodyAppend(_) | BodyTruncate(_) | BodyPrefix(_) => "body",
